@@ -50,17 +50,18 @@ VARIABLES
     flow,     \* [EPs -> [ackd, lwnd]] highest ack / last window delivered to the sender e
     drops,    \* packets dropped by the wire so far
     premOk,   \* the premise of the liveness half still holds
+    apark,    \* accept futures that are parked (polled Pending, not dropped, not completed), by id
     idle,     \* consecutive egress rounds that emitted nothing with an empty wire (saturates at R)
     ok        \* record of verdict flags, one per clause family
 
-pvars == <<lsn, att, natt, ep, synSeen, accd, flow, drops, premOk, idle, ok>>
+pvars == <<lsn, att, natt, ep, synSeen, accd, flow, drops, premOk, apark, idle, ok>>
 
 NoAtt == [st |-> "none", port |-> 0, sawUp |-> FALSE, sawDown |-> FALSE, full |-> FALSE]
 \* pend = bytes this endpoint wrote (accepted by try_write) that its peer has not read yet,
 \* nw = how many it wrote in all.  Bytes are retired from pend as the peer reads them, so
 \* "the bytes read are a prefix of the bytes written" is checked read by read (ok.prefix).
 NoEp  == [h |-> "none", pend |-> <<>>, nw |-> 0, eof |-> FALSE, wfin |-> "open"]
-OkAll == [prefix |-> TRUE, caps |-> TRUE, mss |-> TRUE, wnd |-> TRUE, udp |-> TRUE, accept |-> TRUE,
+OkAll == [wake |-> TRUE, prefix |-> TRUE, caps |-> TRUE, mss |-> TRUE, wnd |-> TRUE, udp |-> TRUE, accept |-> TRUE,
           conn |-> TRUE, abort |-> TRUE, prog |-> TRUE, cpend |-> TRUE, offer |-> TRUE, tab |-> TRUE]
 
 PInit ==
@@ -73,6 +74,7 @@ PInit ==
     /\ flow = [e \in EPs |-> [ackd |-> 1, lwnd |-> -1]]
     /\ drops = 0
     /\ premOk = TRUE
+    /\ apark = {}
     /\ idle = 0
     /\ ok = OkAll
 
@@ -140,14 +142,14 @@ P_Listen(port, obs) ==
     /\ att' = [c \in Ports |-> IF att[c].st = "pending" THEN [att[c] EXCEPT !.sawUp = TRUE] ELSE att[c]]
     /\ idle' = 0
     /\ ok' = [ok EXCEPT !.caps = @ /\ CapsIn(obs)]
-    /\ UNCHANGED <<natt, ep, synSeen, accd, flow, drops, premOk>>
+    /\ UNCHANGED <<natt, ep, synSeen, accd, flow, drops, premOk, apark>>
 
 P_DropListener(obs) ==
     /\ lsn' = [lsn EXCEPT !.st = "down"]
     /\ att' = [c \in Ports |-> IF att[c].st = "pending" THEN [att[c] EXCEPT !.sawDown = TRUE] ELSE att[c]]
     /\ idle' = 0
     /\ ok' = [ok EXCEPT !.caps = @ /\ CapsIn(obs)]
-    /\ UNCHANGED <<natt, ep, synSeen, accd, flow, drops, premOk>>
+    /\ UNCHANGED <<natt, ep, synSeen, accd, flow, drops, premOk, apark>>
 
 \* attempts that may occupy the listener's backlog: started and not (yet) accepted
 Unaccepted(c) == att[c].st # "none" /\ (att[c].port = 0 \/ ~InSeq(att[c].port, accd))
@@ -164,7 +166,7 @@ P_ConnectStart(c, obs) ==
                  ELSE att[x]]
     /\ idle' = 0
     /\ ok' = [ok EXCEPT !.caps = @ /\ CapsIn(obs)]
-    /\ UNCHANGED <<lsn, ep, synSeen, accd, flow, drops, premOk>>
+    /\ UNCHANGED <<lsn, ep, synSeen, accd, flow, drops, premOk, apark>>
 
 \* the connect future completed.  res = "ok" | "refused" | "timedout";
 \* lp / pp = local_addr / peer_addr ports of the stream (0 on error).
@@ -185,7 +187,7 @@ P_ConnectDone(c, res, lp, pp, obs) ==
                                        /\ lp \in Ports /\ ep[<<lp, "c">>].h = "none")
                      /\ (res = "refused" => att[c].sawDown)
                      /\ (res = "timedout" => ~premOk \/ att[c].full)]
-    /\ UNCHANGED <<lsn, natt, synSeen, accd, flow, drops, premOk, idle>>
+    /\ UNCHANGED <<lsn, natt, synSeen, accd, flow, drops, premOk, idle, apark>>
 
 \* the connect future was dropped while pending
 P_Cancel(c, obs) ==
@@ -193,7 +195,7 @@ P_Cancel(c, obs) ==
     /\ att' = [att EXCEPT ![c].st = "cancelled"]
     /\ idle' = 0
     /\ ok' = [ok EXCEPT !.caps = @ /\ CapsIn(obs)]
-    /\ UNCHANGED <<lsn, natt, ep, synSeen, accd, flow, drops, premOk>>
+    /\ UNCHANGED <<lsn, natt, ep, synSeen, accd, flow, drops, premOk, apark>>
 
 \* accept returned a stream: pp = port of the reported peer address, lp = the
 \* stream's local port.  C13: "accept hands out each established connection
@@ -205,7 +207,7 @@ P_Accept(pp, lp, obs) ==
     /\ ok' = [ok EXCEPT
           !.caps = @ /\ CapsIn(obs),
           !.accept = @ /\ pp \in synSeen /\ ~InSeq(pp, accd) /\ lp = lsn.port /\ lsn.st = "up"]
-    /\ UNCHANGED <<lsn, att, natt, synSeen, flow, drops, premOk>>
+    /\ UNCHANGED <<lsn, att, natt, synSeen, flow, drops, premOk, apark>>
 
 \* a reset is the application's own doing when the peer application no longer
 \* holds its stream, or never got one because the listener went away
@@ -236,7 +238,7 @@ P_Write(e, data, res, k, obs) ==
              \* quiescent state is waiting for its reader, who has bytes to take
              !.prog = @ /\ ((Quiescent /\ premOk /\ res = "wouldblock") =>
                                \E i \in RowsOf(obs, Peer(e)) : obs.q[i].rq > 0)]
-    /\ UNCHANGED <<lsn, att, natt, synSeen, accd, flow, drops, premOk>>
+    /\ UNCHANGED <<lsn, att, natt, synSeen, accd, flow, drops, premOk, apark>>
 
 \* try_read(buf of n bytes) returned res = "data" (with bytes) | "eof" |
 \* "wouldblock" | error (bytes = <<>>)
@@ -259,14 +261,14 @@ P_Read(e, n, res, bytes, obs) ==
              \* neither side is left waiting forever"
              !.prog = @ /\ ((Quiescent /\ premOk /\ res = "wouldblock") =>
                                ~unread /\ ~PeerClosed(e))]
-    /\ UNCHANGED <<lsn, att, natt, synSeen, accd, flow, drops, premOk>>
+    /\ UNCHANGED <<lsn, att, natt, synSeen, accd, flow, drops, premOk, apark>>
 
 P_Shutdown(e, res, obs) ==
     /\ e \in EPs /\ ep[e].h = "held"
     /\ ep' = IF res = "ok" THEN [ep EXCEPT ![e].wfin = "shut"] ELSE ep
     /\ idle' = 0
     /\ ok' = [ok EXCEPT !.caps = @ /\ CapsIn(obs), !.abort = @ /\ AbortOk(e, res)]
-    /\ UNCHANGED <<lsn, att, natt, synSeen, accd, flow, drops, premOk>>
+    /\ UNCHANGED <<lsn, att, natt, synSeen, accd, flow, drops, premOk, apark>>
 
 \* the stream handle was dropped
 P_Close(e, obs) ==
@@ -274,7 +276,7 @@ P_Close(e, obs) ==
     /\ ep' = [ep EXCEPT ![e].h = "dropped"]
     /\ idle' = 0
     /\ ok' = [ok EXCEPT !.caps = @ /\ CapsIn(obs)]
-    /\ UNCHANGED <<lsn, att, natt, synSeen, accd, flow, drops, premOk>>
+    /\ UNCHANGED <<lsn, att, natt, synSeen, accd, flow, drops, premOk, apark>>
 
 \* UdpSocket::send_to with an n-byte payload: res = "ok" | "err"; npk = packets it produced.
 \* C16: "UDP payloads larger than the MTU allows are rejected with an error instead of being sent"
@@ -282,7 +284,27 @@ P_Udp(n, res, npk, obs) ==
     /\ idle' = 0
     /\ ok' = [ok EXCEPT !.caps = @ /\ CapsIn(obs),
                         !.udp = @ /\ (n > UdpMax => res = "err" /\ npk = 0)]
-    /\ UNCHANGED <<lsn, att, natt, ep, synSeen, accd, flow, drops, premOk>>
+    /\ UNCHANGED <<lsn, att, natt, ep, synSeen, accd, flow, drops, premOk, apark>>
+
+\* An accept future (id a) was polled, returned Pending and stays alive: its waker is parked
+\* at the listener.
+P_APark(a) ==
+    /\ apark' = apark \cup {a}
+    /\ UNCHANGED <<lsn, att, natt, ep, synSeen, accd, flow, drops, premOk, idle, ok>>
+
+\* Accept future a is no longer parked: it was dropped, or it completed (an accept event follows).
+P_AUnpark(a) ==
+    /\ apark' = apark \ {a}
+    /\ UNCHANGED <<lsn, att, natt, ep, synSeen, accd, flow, drops, premOk, idle, ok>>
+
+\* Sampled after an egress round: woken = ids of accept futures whose waker has been invoked,
+\* lq = netstat Recv-Q of the listener.  C13 "accept hands out each established connection" /
+\* C06 "neither side is left waiting forever": once the wire is quiescent, a connection that
+\* waits in the accept queue while a live accept future is parked has woken such a future.
+P_Wakes(woken, lq) ==
+    /\ ok' = [ok EXCEPT !.wake = @ /\ ((Quiescent /\ lq > 0 /\ apark # {}) =>
+                                          \E a \in apark : InSeq(a, woken))]
+    /\ UNCHANGED <<lsn, att, natt, ep, synSeen, accd, flow, drops, premOk, apark, idle>>
 
 ---------------------------------------------------------------------------
 (* The wire.  A packet is [src, dst, sp, dp, seq, ack, fl, win, data] with  *)
@@ -327,7 +349,7 @@ P_Egress(pk, wlen, maxage, obs) ==
                                 Cardinality({c \in Ports : att[c].st = "ok" /\ ~att[c].sawDown
                                                             /\ ~InSeq(att[c].port, accd)}) <= obs.lq),
              !.tab = @ /\ ((idle2 >= R /\ premOk') => TablesIn(obs))]
-    /\ UNCHANGED <<lsn, att, natt, ep, accd, flow, drops>>
+    /\ UNCHANGED <<lsn, att, natt, ep, accd, flow, drops, apark>>
 
 \* the wire hands packet p (kept for `age` rounds) to its destination host
 P_Deliver(p, age, obs) ==
@@ -342,7 +364,7 @@ P_Deliver(p, age, obs) ==
     \* C13 "has backlog room": the accept queue (netstat Recv-Q of the listener) never
     \* holds more established connections than the backlog
     /\ ok' = [ok EXCEPT !.caps = @ /\ CapsIn(obs), !.accept = @ /\ obs.lq <= Backlog]
-    /\ UNCHANGED <<lsn, att, natt, ep, synSeen, accd, drops>>
+    /\ UNCHANGED <<lsn, att, natt, ep, synSeen, accd, drops, apark>>
 
 P_Drop(p, obs) ==
     /\ drops' = drops + 1
@@ -351,7 +373,7 @@ P_Drop(p, obs) ==
     /\ premOk' = (premOk /\ drops + 1 <= PremD /\ ~(IsTcp(p) /\ Has(p, "R")))
     /\ idle' = 0
     /\ ok' = [ok EXCEPT !.caps = @ /\ CapsIn(obs)]
-    /\ UNCHANGED <<lsn, att, natt, ep, synSeen, accd, flow>>
+    /\ UNCHANGED <<lsn, att, natt, ep, synSeen, accd, flow, apark>>
 
 \* start of a new recorded run (trace validation only)
 P_Reset ==
@@ -364,6 +386,7 @@ P_Reset ==
     /\ flow' = [e \in EPs |-> [ackd |-> 1, lwnd |-> -1]]
     /\ drops' = 0
     /\ premOk' = TRUE
+    /\ apark' = {}
     /\ idle' = 0
     /\ ok' = ok
 
@@ -393,9 +416,10 @@ Reclaimed   == ok.tab
 \* pending once every retransmit budget has run out
 ConnectCompletes == ok.cpend
 AcceptOffered    == ok.offer
+AcceptWoken      == ok.wake
 
 C06Safety == PrefixInv /\ EofOnlyAtEnd
 C06Inv == PrefixInv /\ EofOnlyAtEnd /\ NoSpuriousAbort /\ BoundedProgress
 C16Inv == CapsOk /\ MssOk /\ WindowOk /\ UdpOk
-C13Inv == AcceptOnce /\ ConnectRule /\ Reclaimed /\ ConnectCompletes /\ AcceptOffered
+C13Inv == AcceptOnce /\ ConnectRule /\ Reclaimed /\ ConnectCompletes /\ AcceptOffered /\ AcceptWoken
 =============================================================================
